@@ -9,20 +9,15 @@ For every `pj`, every iterator `i` whose view is inside the tape (`i.lim ≤ pj.
 `fuel ≥ fuelFor i = i.lim + 8` the interpreter neither gets stuck nor runs out of fuel, and
 
   * `peekNextTag_sim`, `peekNext_sim`   — `PeekNextTag`, `PeekNext` ARE `Iter.peekNextTag`, `Iter.peekNext`.
-  * `advanceG_sim`, `advanceIntoG_sim`, `advanceIterG_sim`
-        — `Advance`, `AdvanceInto`, `AdvanceIter` ARE `advanceG`, `advanceIntoG`, `advanceIterG` (GoIterLemmas):
-          the hand model with the *whole* iterator threaded through the NOP-skipping loop.  No extra hypothesis.
   * `advance_sim`, `advanceInto_sim`, `advanceIter_sim`
-        — the same against the hand model itself, under `DeadCurAgrees` resp. `EndAtStart`: exactly the conditions
-          under which the hand model's result is the state Go computes.  Without them `advance_rel_G`,
-          `advanceInto_rel_G` (GoIterLemmas) bound the difference: same returned value, same iterator up to `cur`
-          of an iterator that is at its end (`t = TagEnd`).
-  * `model_differs` — a concrete, API-reachable tape on which the hand model and the code differ (FINDING):
-          when a run of NOP words extends to the end of the view, Go leaves the last NOP's skip count in `i.cur`
-          (the loop overwrites `i.cur`, `i.t` on every iteration) and, in `AdvanceIter`, `i.off = len(tape)`; the hand
-          model's loops thread only the offset and rebuild the result from the *initial* iterator
-          (`cur` unchanged; `AdvanceIter`: `off` = the offset before the NOP words).
-  * `go_iter_source_tie` bundles them.
+        — `Advance`, `AdvanceInto`, `AdvanceIter` ARE `Iter.advance`, `Iter.advanceInto`, `Iter.advanceIter`.
+          No extra hypothesis: the model's NOP-skipping loops thread the payload and tag registers exactly as the Go
+          loops overwrite `i.cur`, `i.t` on every iteration (`advanceLoop_self` … in GoIterLemmas read them with the
+          offset kept in the iterator, as Go does).
+  * `go_iter_source_tie` bundles the five.
+  * the `example`s at the end are a regression for the case these proofs once found (a run of NOP words extending to
+          the end of the view): the model now produces Go's state (`cur` = the last NOP's skip count and, in
+          `AdvanceIter`, `off = len(tape)`).
 
 Initial `i.cur` needs no bound (`int(i.cur)` is only evaluated after `i.cur = v & JSONVALUEMASK`); `dst` is arbitrary
 (`*dst = *i` copies the view, as the model's `d.lim = i.lim`).
@@ -344,14 +339,14 @@ theorem advance_body (e : Env) (tape : Array UInt64) (f : Nat) (j : Iter) (hI : 
 theorem advance_loop (pj : PJ) : ∀ (n : Nat) (j : Iter) (fuel : Nat) (e : Env), j.lim - j.off ≤ n → n + 1 < fuel →
     j.lim ≤ pj.tape.size → iterAt e "i" = some j →
     LoopSim pj.tape [.u8 0] (exec1 goFuns fuel (.loop (firstLoop goIter_Advance.body)) ⟨e, pj.tape⟩)
-      (advanceLoopG pj j) := by
+      (Iter.advanceLoop pj j j.off) := by
   intro n
   induction n with
   | zero =>
     intro j fuel e hn hf hsz hI
     obtain ⟨f, rfl⟩ : ∃ f, fuel = f + 2 := ⟨fuel - 2, by omega⟩
     obtain ⟨h1, h2, h3, h4, h5⟩ := iterAt_get_i _ _ hI
-    rw [exec1, advance_body e pj.tape f j hI hsz, advanceLoopG]
+    rw [exec1, advance_body e pj.tape f j hI hsz, advanceLoop_self]
     have h : j.off ≥ j.lim := by omega
     simp only [h, dif_pos, LoopSim]
     refine ⟨_, rfl, rfl, ?_⟩
@@ -360,7 +355,7 @@ theorem advance_loop (pj : PJ) : ∀ (n : Nat) (j : Iter) (fuel : Nat) (e : Env)
     intro j fuel e hn hf hsz hI
     obtain ⟨f, rfl⟩ : ∃ f, fuel = f + 2 := ⟨fuel - 2, by omega⟩
     obtain ⟨h1, h2, h3, h4, h5⟩ := iterAt_get_i _ _ hI
-    rw [exec1, advance_body e pj.tape f j hI hsz, advanceLoopG]
+    rw [exec1, advance_body e pj.tape f j hI hsz, advanceLoop_self]
     by_cases h : j.off ≥ j.lim
     · simp only [h, dif_pos, LoopSim]
       refine ⟨_, rfl, rfl, ?_⟩
@@ -413,8 +408,8 @@ theorem advance_body_neg (e : Env) (tape : Array UInt64) (fuel : Nat) (o : Int) 
   have h2 : ¬ 0 ≤ o := by omega
   simp [hoff, hlim, h1, h2]
 
-theorem advanceG_sim (pj : PJ) (i : Iter) (hl : i.lim ≤ pj.tape.size) (fuel : Nat) (hf : fuelFor i ≤ fuel) :
-    SimT pj.tape (runFun goFuns goIter_Advance fuel { env := envOf "i" i, tape := pj.tape }) (advanceG pj i) := by
+theorem advance_sim (pj : PJ) (i : Iter) (hl : i.lim ≤ pj.tape.size) (fuel : Nat) (hf : fuelFor i ≤ fuel) :
+    SimT pj.tape (runFun goFuns goIter_Advance fuel { env := envOf "i" i, tape := pj.tape }) (i.advance pj) := by
   have hbody : goIter_Advance.body = .assign "i.off" (.bin .add (.v "i.off") (.v "i.addNext")) ::
       .loop (firstLoop goIter_Advance.body) :: afterLoop goIter_Advance.body := rfl
   have h1 : exec1 goFuns fuel (.assign "i.off" (.bin .add (.v "i.off") (.v "i.addNext"))) ⟨envOf "i" i, pj.tape⟩ =
@@ -422,10 +417,10 @@ theorem advanceG_sim (pj : PJ) (i : Iter) (hl : i.lim ≤ pj.tape.size) (fuel : 
     simp [envOf, Env.get]
   unfold fuelFor at hf
   obtain ⟨f, rfl⟩ : ∃ f, fuel = f + 2 := ⟨fuel - 2, by omega⟩
-  have key : SimT pj.tape (exec goFuns (f + 2) goIter_Advance.body ⟨envOf "i" i, pj.tape⟩) (advanceG pj i) := by
+  have key : SimT pj.tape (exec goFuns (f + 2) goIter_Advance.body ⟨envOf "i" i, pj.tape⟩) (i.advance pj) := by
     rw [hbody, exec, h1]
     simp only []
-    unfold advanceG Iter.bump
+    unfold Iter.advance Iter.bump
     by_cases ho : (i.off : Int) + i.addNext < 0
     · have hp : exec1 goFuns (f + 2) (.loop (firstLoop goIter_Advance.body))
           ⟨(envOf "i" i).set "i.off" (.int ((i.off : Int) + i.addNext)), pj.tape⟩ = .panic := by
@@ -440,10 +435,12 @@ theorem advanceG_sim (pj : PJ) (i : Iter) (hl : i.lim ≤ pj.tape.size) (fuel : 
         omega
       have hloop := advance_loop pj i.lim { i with off := ((i.off : Int) + i.addNext).toNat } (f + 2) _
         (Nat.sub_le _ _) (by omega) hl hI
+      simp only at hloop
+      rw [advanceLoop_off pj _ i _ (Nat.le_refl _)]
       rw [exec]
       generalize exec1 goFuns (f + 2) (.loop (firstLoop goIter_Advance.body))
         ⟨(envOf "i" i).set "i.off" (.int ((i.off : Int) + i.addNext)), pj.tape⟩ = out at hloop ⊢
-      cases hg : advanceLoopG pj { i with off := ((i.off : Int) + i.addNext).toNat } with
+      cases hg : Iter.advanceLoop pj { i with off := ((i.off : Int) + i.addNext).toNat } ((i.off : Int) + i.addNext).toNat with
       | ok r =>
         obtain ⟨a, l⟩ := r
         rw [hg] at hloop
@@ -516,14 +513,14 @@ theorem advanceInto_body_neg (e : Env) (tape : Array UInt64) (fuel : Nat) (o : I
 theorem advanceInto_loop (pj : PJ) : ∀ (n : Nat) (j : Iter) (fuel : Nat) (e : Env), j.lim - j.off ≤ n →
     n + 1 < fuel → j.lim ≤ pj.tape.size → iterAt e "i" = some j →
     LoopSim pj.tape [.u8 0] (exec1 goFuns fuel (.loop (firstLoop goIter_AdvanceInto.body)) ⟨e, pj.tape⟩)
-      (advanceIntoLoopG pj j) := by
+      (Iter.advanceIntoLoop pj j j.off) := by
   intro n
   induction n with
   | zero =>
     intro j fuel e hn hf hsz hI
     obtain ⟨f, rfl⟩ : ∃ f, fuel = f + 2 := ⟨fuel - 2, by omega⟩
     obtain ⟨h1, h2, h3, h4, h5⟩ := iterAt_get_i _ _ hI
-    rw [exec1, advanceInto_body e pj.tape f j hI hsz, advanceIntoLoopG]
+    rw [exec1, advanceInto_body e pj.tape f j hI hsz, advanceIntoLoop_self]
     have h : j.off ≥ j.lim := by omega
     simp only [h, dif_pos, LoopSim]
     refine ⟨_, rfl, rfl, ?_⟩
@@ -532,7 +529,7 @@ theorem advanceInto_loop (pj : PJ) : ∀ (n : Nat) (j : Iter) (fuel : Nat) (e : 
     intro j fuel e hn hf hsz hI
     obtain ⟨f, rfl⟩ : ∃ f, fuel = f + 2 := ⟨fuel - 2, by omega⟩
     obtain ⟨h1, h2, h3, h4, h5⟩ := iterAt_get_i _ _ hI
-    rw [exec1, advanceInto_body e pj.tape f j hI hsz, advanceIntoLoopG]
+    rw [exec1, advanceInto_body e pj.tape f j hI hsz, advanceIntoLoop_self]
     by_cases h : j.off ≥ j.lim
     · simp only [h, dif_pos, LoopSim]
       refine ⟨_, rfl, rfl, ?_⟩
@@ -575,9 +572,9 @@ theorem advanceInto_tail (s : St) (j : Iter) (f : Nat) (hI : iterAt s.env "i" = 
     refine ⟨⟨e1, s.tape⟩, ?_, rfl, hI2⟩
     simp [h1, h2, h3, h4, h5, hneg]
 
-theorem advanceIntoG_sim (pj : PJ) (i : Iter) (hl : i.lim ≤ pj.tape.size) (fuel : Nat) (hf : fuelFor i ≤ fuel) :
+theorem advanceInto_sim (pj : PJ) (i : Iter) (hl : i.lim ≤ pj.tape.size) (fuel : Nat) (hf : fuelFor i ≤ fuel) :
     SimT pj.tape (runFun goFuns goIter_AdvanceInto fuel { env := envOf "i" i, tape := pj.tape })
-      (advanceIntoG pj i) := by
+      (i.advanceInto pj) := by
   have hbody : goIter_AdvanceInto.body = .assign "i.off" (.bin .add (.v "i.off") (.v "i.addNext")) ::
       .loop (firstLoop goIter_AdvanceInto.body) :: afterLoop goIter_AdvanceInto.body := rfl
   have h1 : exec1 goFuns fuel (.assign "i.off" (.bin .add (.v "i.off") (.v "i.addNext"))) ⟨envOf "i" i, pj.tape⟩ =
@@ -586,10 +583,10 @@ theorem advanceIntoG_sim (pj : PJ) (i : Iter) (hl : i.lim ≤ pj.tape.size) (fue
   unfold fuelFor at hf
   obtain ⟨f, rfl⟩ : ∃ f, fuel = f + 2 := ⟨fuel - 2, by omega⟩
   have key : SimT pj.tape (exec goFuns (f + 2) goIter_AdvanceInto.body ⟨envOf "i" i, pj.tape⟩)
-      (advanceIntoG pj i) := by
+      (i.advanceInto pj) := by
     rw [hbody, exec, h1]
     simp only []
-    unfold advanceIntoG Iter.bump
+    unfold Iter.advanceInto Iter.bump
     by_cases ho : (i.off : Int) + i.addNext < 0
     · have hp : exec1 goFuns (f + 2) (.loop (firstLoop goIter_AdvanceInto.body))
           ⟨(envOf "i" i).set "i.off" (.int ((i.off : Int) + i.addNext)), pj.tape⟩ = .panic := by
@@ -604,10 +601,12 @@ theorem advanceIntoG_sim (pj : PJ) (i : Iter) (hl : i.lim ≤ pj.tape.size) (fue
         omega
       have hloop := advanceInto_loop pj i.lim { i with off := ((i.off : Int) + i.addNext).toNat } (f + 2) _
         (Nat.sub_le _ _) (by omega) hl hI
+      simp only at hloop
+      rw [advanceIntoLoop_off pj _ i _ (Nat.le_refl _)]
       rw [exec]
       generalize exec1 goFuns (f + 2) (.loop (firstLoop goIter_AdvanceInto.body))
         ⟨(envOf "i" i).set "i.off" (.int ((i.off : Int) + i.addNext)), pj.tape⟩ = out at hloop ⊢
-      cases hg : advanceIntoLoopG pj { i with off := ((i.off : Int) + i.addNext).toNat } with
+      cases hg : Iter.advanceIntoLoop pj { i with off := ((i.off : Int) + i.addNext).toNat } ((i.off : Int) + i.addNext).toNat with
       | ok r =>
         obtain ⟨a, l⟩ := r
         rw [hg] at hloop
@@ -723,13 +722,13 @@ theorem advanceIter_body_neg (e : Env) (tape : Array UInt64) (fuel : Nat) (o : I
 theorem advanceIter_loop (pj : PJ) : ∀ (n : Nat) (j : Iter) (fuel : Nat) (e : Env), j.lim - j.off ≤ n →
     n < fuel → j.lim ≤ pj.tape.size → iterAt e "i" = some j →
     LoopSimIter pj.tape e (exec1 goFuns fuel (.loop (firstLoop goIter_AdvanceIter.body)) ⟨e, pj.tape⟩)
-      (advanceIterLoopG pj j) := by
+      (Iter.advanceIterLoop pj j j.off) := by
   have hend : ∀ (j : Iter) (f : Nat) (e : Env), j.off ≥ j.lim → j.lim ≤ pj.tape.size → iterAt e "i" = some j →
       LoopSimIter pj.tape e (exec1 goFuns (f + 1) (.loop (firstLoop goIter_AdvanceIter.body)) ⟨e, pj.tape⟩)
-        (advanceIterLoopG pj j) := by
+        (Iter.advanceIterLoop pj j j.off) := by
     intro j f e h hsz hI
     obtain ⟨h1, h2, h3, h4, h5⟩ := iterAt_get_i _ _ hI
-    rw [exec1, advanceIter_body e pj.tape f j hI hsz, advanceIterLoopG]
+    rw [exec1, advanceIter_body e pj.tape f j hI hsz, advanceIterLoop_self]
     by_cases he : j.off = j.lim
     · simp only [he, dif_pos, LoopSimIter]
       refine ⟨_, rfl, rfl, ?_, ?_⟩
@@ -750,7 +749,7 @@ theorem advanceIter_loop (pj : PJ) : ∀ (n : Nat) (j : Iter) (fuel : Nat) (e : 
     by_cases h : j.off ≥ j.lim
     · exact hend j f e h hsz hI
     · obtain ⟨h1, h2, h3, h4, h5⟩ := iterAt_get_i _ _ hI
-      rw [exec1, advanceIter_body e pj.tape f j hI hsz, advanceIterLoopG]
+      rw [exec1, advanceIter_body e pj.tape f j hI hsz, advanceIterLoop_self]
       have he : ¬ j.off = j.lim := by omega
       have hgt : ¬ j.off > j.lim := by omega
       have hr : pj.tape[j.off]? = some (pj.tape[j.off]'(by omega)) := by simp
@@ -775,7 +774,7 @@ theorem advanceIter_loop (pj : PJ) : ∀ (n : Nat) (j : Iter) (fuel : Nat) (e : 
           simp only [hn'] at this hF'
           revert this
           generalize exec1 goFuns f _ _ = out
-          generalize advanceIterLoopG pj _ = r
+          generalize Iter.advanceIterLoop pj _ _ = r
           intro this
           unfold LoopSimIter at this ⊢
           split at this
@@ -935,10 +934,10 @@ theorem advanceIter_tail (s : St) (i1 : Iter) (f : Nat) (hI : iterAt s.env "i" =
         · apply iterAt_of_gets <;> simp [d1, d2, d3, d4]
           omega
 
-theorem advanceIterG_sim (pj : PJ) (i dst : Iter) (hl : i.lim ≤ pj.tape.size) (fuel : Nat) (hf : fuelFor i ≤ fuel) :
+theorem advanceIter_sim (pj : PJ) (i dst : Iter) (hl : i.lim ≤ pj.tape.size) (fuel : Nat) (hf : fuelFor i ≤ fuel) :
     SimIter pj.tape (runFun goFuns goIter_AdvanceIter fuel
       { env := envOf "i" i ++ envOf "dst" dst ++ [("i!=dst", .bool true)], tape := pj.tape })
-      (advanceIterG pj i dst) := by
+      (i.advanceIter pj dst) := by
   have hbody : goIter_AdvanceIter.body = .assign "i.off" (.bin .add (.v "i.off") (.v "i.addNext")) ::
       .loop (firstLoop goIter_AdvanceIter.body) :: afterLoop goIter_AdvanceIter.body := rfl
   generalize he00 : envOf "i" i ++ envOf "dst" dst ++ [("i!=dst", Val.bool true)] = e00
@@ -956,10 +955,10 @@ theorem advanceIterG_sim (pj : PJ) (i dst : Iter) (hl : i.lim ≤ pj.tape.size) 
   unfold fuelFor at hf
   obtain ⟨f, rfl⟩ : ∃ f, fuel = f + 2 := ⟨fuel - 2, by omega⟩
   have key : SimIter pj.tape (exec goFuns (f + 2) goIter_AdvanceIter.body ⟨e00, pj.tape⟩)
-      (advanceIterG pj i dst) := by
+      (i.advanceIter pj dst) := by
     rw [hbody, exec, h1]
     simp only []
-    unfold advanceIterG Iter.bump
+    unfold Iter.advanceIter Iter.bump
     by_cases ho : (i.off : Int) + i.addNext < 0
     · have hp : exec1 goFuns (f + 2) (.loop (firstLoop goIter_AdvanceIter.body))
           ⟨e00.set "i.off" (.int ((i.off : Int) + i.addNext)), pj.tape⟩ = .panic := by
@@ -974,10 +973,12 @@ theorem advanceIterG_sim (pj : PJ) (i dst : Iter) (hl : i.lim ≤ pj.tape.size) 
         omega
       have hloop := advanceIter_loop pj i.lim { i with off := ((i.off : Int) + i.addNext).toNat } (f + 2) _
         (Nat.sub_le _ _) (by omega) hl hI
+      simp only at hloop
+      rw [advanceIterLoop_off pj _ i _ (Nat.le_refl _)]
       generalize e00.set "i.off" (.int ((i.off : Int) + i.addNext)) = e0 at hD0 hN0 hI hloop ⊢
       rw [exec]
       generalize exec1 goFuns (f + 2) (.loop (firstLoop goIter_AdvanceIter.body)) ⟨e0, pj.tape⟩ = out at hloop ⊢
-      cases hg : advanceIterLoopG pj { i with off := ((i.off : Int) + i.addNext).toNat } with
+      cases hg : Iter.advanceIterLoop pj { i with off := ((i.off : Int) + i.addNext).toNat } ((i.off : Int) + i.addNext).toNat with
       | ok r =>
         obtain ⟨a, l⟩ := r
         rw [hg] at hloop
@@ -1007,57 +1008,25 @@ theorem advanceIterG_sim (pj : PJ) (i dst : Iter) (hl : i.lim ≤ pj.tape.size) 
   rw [runFun_final _ _ _ _ key.final]
   exact key
 
-/-! ## against the hand model -/
-
-theorem advance_sim (pj : PJ) (i : Iter) (hl : i.lim ≤ pj.tape.size) (fuel : Nat) (hf : fuelFor i ≤ fuel)
-    (hd : DeadCurAgrees advanceLoopG pj i) :
-    SimT pj.tape (runFun goFuns goIter_Advance fuel { env := envOf "i" i, tape := pj.tape }) (i.advance pj) := by
-  rw [advance_eq_G pj i hd]
-  exact advanceG_sim pj i hl fuel hf
-
-theorem advanceInto_sim (pj : PJ) (i : Iter) (hl : i.lim ≤ pj.tape.size) (fuel : Nat) (hf : fuelFor i ≤ fuel)
-    (hd : DeadCurAgrees advanceIntoLoopG pj i) :
-    SimT pj.tape (runFun goFuns goIter_AdvanceInto fuel { env := envOf "i" i, tape := pj.tape })
-      (i.advanceInto pj) := by
-  rw [advanceInto_eq_G pj i hd]
-  exact advanceIntoG_sim pj i hl fuel hf
-
-theorem advanceIter_sim (pj : PJ) (i dst : Iter) (hl : i.lim ≤ pj.tape.size) (fuel : Nat) (hf : fuelFor i ≤ fuel)
-    (he : EndAtStart pj i) :
-    SimIter pj.tape (runFun goFuns goIter_AdvanceIter fuel
-      { env := envOf "i" i ++ envOf "dst" dst ++ [("i!=dst", .bool true)], tape := pj.tape })
-      (i.advanceIter pj dst) := by
-  rw [advanceIter_eq_G pj i dst he]
-  exact advanceIterG_sim pj i dst hl fuel hf
-
-/-- The cursor functions of `parsed_json.go`, as translated, against the model.
-    1. `PeekNextTag`, `PeekNext` are the hand model, unconditionally.
-    2. `Advance`, `AdvanceInto`, `AdvanceIter` are `advanceG`, `advanceIntoG`, `advanceIterG` unconditionally.
-    3. The hand model's `advance`, `advanceInto` agree with these up to the payload register of an iterator at its end
-       (`RelDead`), and exactly under `DeadCurAgrees`; `advanceIter` exactly under `EndAtStart`. -/
+/-- The cursor functions of `parsed_json.go`, as translated, ARE the model: for every tape, every iterator whose view
+    is inside the tape, every `dst` and enough fuel, running the regenerated syntax tree of `PeekNextTag`, `PeekNext`,
+    `Advance`, `AdvanceInto`, `AdvanceIter` gives exactly the model's result and the model's iterator. -/
 theorem go_iter_source_tie (pj : PJ) (i dst : Iter) (hl : i.lim ≤ pj.tape.size) (fuel : Nat) (hf : fuelFor i ≤ fuel) :
     SimV pj.tape i (runFun goFuns goIter_PeekNextTag fuel { env := envOf "i" i, tape := pj.tape }) (i.peekNextTag pj) ∧
     SimV pj.tape i (runFun goFuns goIter_PeekNext fuel { env := envOf "i" i, tape := pj.tape }) (i.peekNext pj) ∧
-    SimT pj.tape (runFun goFuns goIter_Advance fuel { env := envOf "i" i, tape := pj.tape }) (advanceG pj i) ∧
-    SimT pj.tape (runFun goFuns goIter_AdvanceInto fuel { env := envOf "i" i, tape := pj.tape }) (advanceIntoG pj i) ∧
+    SimT pj.tape (runFun goFuns goIter_Advance fuel { env := envOf "i" i, tape := pj.tape }) (i.advance pj) ∧
+    SimT pj.tape (runFun goFuns goIter_AdvanceInto fuel { env := envOf "i" i, tape := pj.tape }) (i.advanceInto pj) ∧
     SimIter pj.tape (runFun goFuns goIter_AdvanceIter fuel
-      { env := envOf "i" i ++ envOf "dst" dst ++ [("i!=dst", .bool true)], tape := pj.tape }) (advanceIterG pj i dst) ∧
-    RelDead i (advanceG pj i) (i.advance pj) ∧
-    RelDead i (advanceIntoG pj i) (i.advanceInto pj) ∧
-    (DeadCurAgrees advanceLoopG pj i →
-      SimT pj.tape (runFun goFuns goIter_Advance fuel { env := envOf "i" i, tape := pj.tape }) (i.advance pj)) ∧
-    (DeadCurAgrees advanceIntoLoopG pj i →
-      SimT pj.tape (runFun goFuns goIter_AdvanceInto fuel { env := envOf "i" i, tape := pj.tape })
-        (i.advanceInto pj)) ∧
-    (EndAtStart pj i →
-      SimIter pj.tape (runFun goFuns goIter_AdvanceIter fuel
-        { env := envOf "i" i ++ envOf "dst" dst ++ [("i!=dst", .bool true)], tape := pj.tape })
-        (i.advanceIter pj dst)) :=
-  ⟨peekNextTag_sim pj i hl fuel hf, peekNext_sim pj i hl fuel hf, advanceG_sim pj i hl fuel hf,
-   advanceIntoG_sim pj i hl fuel hf, advanceIterG_sim pj i dst hl fuel hf, advance_rel_G pj i, advanceInto_rel_G pj i,
-   advance_sim pj i hl fuel hf, advanceInto_sim pj i hl fuel hf, advanceIter_sim pj i dst hl fuel hf⟩
+      { env := envOf "i" i ++ envOf "dst" dst ++ [("i!=dst", .bool true)], tape := pj.tape }) (i.advanceIter pj dst) :=
+  ⟨peekNextTag_sim pj i hl fuel hf, peekNext_sim pj i hl fuel hf, advance_sim pj i hl fuel hf,
+   advanceInto_sim pj i hl fuel hf, advanceIter_sim pj i dst hl fuel hf⟩
 
-/-! ## the hand model is not exactly the code: a witness, and when it is -/
+/-! ## regression: NOP words up to the end of the view
+
+An earlier version of the model threaded only the offset through the NOP-skipping loops and rebuilt the result from
+the *initial* iterator; the proofs above found the difference on this tape (Go overwrites `i.t`, `i.cur`, `i.off` on
+every iteration): after the NOP word the cursor is at the end of its view with `cur = 1` (the NOP's skip count) and,
+for `AdvanceIter`, `off = 3` — where the old model kept `cur = 0` resp. `off = 2`. -/
 
 /-- the tape of `"abc"` after `SetNull` on the string (`root, null, NOP|1, root`), and the view `Root()` returns -/
 def witnessPJ : PJ := { tape := #[mkWord 114 4, mkWord 110 0, mkWord 78 1, mkWord 114 0], strings := #[], msg := #[] }
@@ -1068,15 +1037,8 @@ theorem w2 : witnessPJ.tape[2]? = some (mkWord 78 1) := rfl
 theorem wtag : tagOf (mkWord 78 1) = tagNop := by decide
 theorem wpay : payloadOf (mkWord 78 1) = 1 := by decide
 
-theorem witness_go : advanceG witnessPJ witnessI = .ok ({ lim := 3, off := 3, addNext := 0, cur := 1, t := 0 }, 0) := by
-  unfold advanceG
-  simp [Iter.bump, witnessI]
-  rw [advanceLoopG]
-  simp [Iter.rdT, rd, w2, wtag, wpay]
-  rw [advanceLoopG]
-  simp [tagEnd, typeNone]
-
-theorem witness_model : witnessI.advance witnessPJ = .ok ({ lim := 3, off := 3, addNext := 0, cur := 0, t := 0 }, 0) := by
+/-- `Advance` on the witness: Go's state (`cur = 1`) -/
+example : witnessI.advance witnessPJ = .ok ({ lim := 3, off := 3, addNext := 0, cur := 1, t := 0 }, 0) := by
   unfold Iter.advance
   simp [Iter.bump, witnessI]
   rw [Iter.advanceLoop]
@@ -1084,71 +1046,23 @@ theorem witness_model : witnessI.advance witnessPJ = .ok ({ lim := 3, off := 3, 
   rw [Iter.advanceLoop]
   simp [tagEnd, typeNone]
 
-theorem witness_iter_go (dst : Iter) :
-    advanceIterG witnessPJ witnessI dst = .ok ({ lim := 3, off := 3, addNext := 0, cur := 1, t := 0 }, dst, 0) := by
-  unfold advanceIterG
+/-- `AdvanceInto` on the witness -/
+example : witnessI.advanceInto witnessPJ = .ok ({ lim := 3, off := 3, addNext := 0, cur := 1, t := 0 }, 0) := by
+  unfold Iter.advanceInto
   simp [Iter.bump, witnessI]
-  rw [advanceIterLoopG]
+  rw [Iter.advanceIntoLoop]
   simp [Iter.rdT, rd, w2, wtag, wpay]
-  rw [advanceIterLoopG]
-  simp [tagEnd, typeNone]
+  rw [Iter.advanceIntoLoop]
+  simp [tagEnd]
 
-theorem witness_iter_model (dst : Iter) :
-    witnessI.advanceIter witnessPJ dst = .ok ({ lim := 3, off := 2, addNext := 0, cur := 0, t := 0 }, dst, 0) := by
+/-- `AdvanceIter` on the witness: Go's state (`cur = 1`, `off = 3`) -/
+example (dst : Iter) :
+    witnessI.advanceIter witnessPJ dst = .ok ({ lim := 3, off := 3, addNext := 0, cur := 1, t := 0 }, dst, 0) := by
   unfold Iter.advanceIter
   simp [Iter.bump, witnessI]
   rw [Iter.advanceIterLoop]
   simp [Iter.rdT, rd, w2, wtag, wpay]
   rw [Iter.advanceIterLoop]
   simp [tagEnd, typeNone]
-
-/-- the hand model is not the code: on the witness the payload register (`Advance`) resp. payload and offset
-    (`AdvanceIter`) differ -/
-theorem model_differs (dst : Iter) :
-    witnessI.advance witnessPJ ≠ advanceG witnessPJ witnessI ∧
-    witnessI.advanceIter witnessPJ dst ≠ advanceIterG witnessPJ witnessI dst := by
-  rw [witness_go, witness_model, witness_iter_go, witness_iter_model]
-  constructor <;> simp
-
-/-- sufficient for `DeadCurAgrees`: the word under the cursor is not a NOP word with a non-zero skip -/
-theorem deadCurAgrees_advance_of_noSkip (pj : PJ) (i : Iter)
-    (h : ∀ o v, i.bump = .ok o → o < i.lim → pj.tape[o]? = some v → tagOf v = tagNop → payloadOf v = 0) :
-    DeadCurAgrees advanceLoopG pj i := by
-  intro o a hb hg
-  rw [advanceLoopG] at hg
-  by_cases hge : o ≥ i.lim
-  · simp only [hge, dif_pos, Res.ok.injEq, Prod.mk.injEq, and_true] at hg
-    right; rw [← hg]
-  · simp only [hge, dif_neg, not_false_eq_true, Iter.rdT, rd] at hg
-    cases hr : pj.tape[o]? with
-    | none => simp [hr, Res.bind] at hg
-    | some v =>
-      simp only [hr, Res.bind_ok] at hg
-      by_cases hn : tagOf v = tagNop
-      · have hz := h o v hb (by omega) hr hn
-        simp [hn, hz, Iter.moveToEnd] at hg
-        left; rw [← hg]
-      · have hbq : (tagOf v == tagNop) = false := by simp [hn]
-        simp [hbq] at hg
-
-theorem deadCurAgrees_advanceInto_of_noSkip (pj : PJ) (i : Iter)
-    (h : ∀ o v, i.bump = .ok o → o < i.lim → pj.tape[o]? = some v → tagOf v = tagNop → payloadOf v = 0) :
-    DeadCurAgrees advanceIntoLoopG pj i := by
-  intro o a hb hg
-  rw [advanceIntoLoopG] at hg
-  by_cases hge : o ≥ i.lim
-  · simp only [hge, dif_pos, Res.ok.injEq, Prod.mk.injEq, and_true] at hg
-    right; rw [← hg]
-  · simp only [hge, dif_neg, not_false_eq_true, Iter.rdT, rd] at hg
-    cases hr : pj.tape[o]? with
-    | none => simp [hr, Res.bind] at hg
-    | some v =>
-      simp only [hr, Res.bind_ok] at hg
-      by_cases hn : tagOf v = tagNop
-      · have hz := h o v hb (by omega) hr hn
-        simp [hn, hz, Iter.moveToEnd] at hg
-        left; rw [← hg]
-      · have hbq : (tagOf v == tagNop) = false := by simp [hn]
-        simp [hbq] at hg
 
 end SJ.GoIter
